@@ -716,6 +716,26 @@ def extract():
                     mentions.append(where)
         return rows, mentions, idx
     shape, _, sidx = analyse(tree)
+    # who REBINDS the daemon's table / lock attribute (the lock must be one object for the daemon's lifetime, the table is
+    # only ever replaced when the object is built)
+    def rebinders(attr):
+        out = []
+        for q, (cn, f) in sidx.items():
+            for n in ast.walk(f):
+                targets = n.targets if isinstance(n, ast.Assign) else [n.target] if isinstance(n, (ast.AugAssign, ast.AnnAssign)) \
+                    else [t for t in n.targets] if isinstance(n, ast.Delete) else []
+                flat = []
+                for t in targets:
+                    flat += list(t.elts) if isinstance(t, (ast.Tuple, ast.List)) else [t]
+                if any(isinstance(t, ast.Attribute) and t.attr == attr for t in flat):
+                    out.append(q)
+                    break
+            for n in ast.walk(f):
+                if isinstance(n, ast.Call) and getattr(n.func, "id", None) in ("setattr", "delattr") and len(n.args) >= 2 \
+                        and isinstance(n.args[1], ast.Constant) and n.args[1].value == attr and q not in out:
+                    out.append(q)
+        return out
+    lock_writers, table_writers = rebinders("create_single_instance_lock"), rebinders("_pyroInstances")
     callers = []
     for q, (cn, f) in sidx.items():
         k = sum(1 for n in ast.walk(f) if isinstance(n, ast.Call) and isinstance(n.func, ast.Attribute)
@@ -761,6 +781,9 @@ def sessionTest : String := {lean_str(one_test("session", 1))}
 def createShape : String := {lean_str(create_shape)}
 /-- (function, accesses of `._pyroInstances` lexically inside `with <the single-instance lock>:`, outside) -/
 def instShape : List (String × Nat × Nat) := [{rows}]
+/-- functions that rebind `self.create_single_instance_lock` / `self._pyroInstances` (assignment, del, setattr) -/
+def lockWriters : List String := {lean_strs(lock_writers)}
+def tableWriters : List String := {lean_strs(table_writers)}
 /-- functions that call `_getInstance`, with the number of call sites -/
 def getInstanceCallers : List String := {lean_strs(callers)}
 /-- every function of the package that mentions `.pyroInstances` / `._pyroInstances` -/
